@@ -331,12 +331,75 @@ func c15expandOnly(c *engine.Ctx, m c15macro, args []*T) {
 	c.Outcome("X|" + key + "|" + r.Short())
 }
 
+// c15emptyHash: the one hash literal the reader itself produces, {}, at every position of small templates (the
+// reference evaluator has no hash literals; the expected value is the template text with the unquotes substituted)
+func c15emptyHash(c *engine.Ctx, only string) {
+	subst := map[string]string{"~x": "5", "~@xs": "1 2", "~@e": "", "~st": `"s"`}
+	elems := []string{"{}", "a", "~x", "~@xs", "~@e", "~st", "[{}]", "({} 1)"}
+	var templates []string
+	for _, open := range []string{"(", "["} {
+		cl := ")"
+		if open == "[" {
+			cl = "]"
+		}
+		for _, a := range elems {
+			templates = append(templates, open+a+cl)
+			for _, b := range elems {
+				if a == "{}" || b == "{}" || strings.Contains(a, "{}") || strings.Contains(b, "{}") {
+					templates = append(templates, open+a+" "+b+cl)
+					for _, d := range []string{"{}", "~x", "b"} {
+						templates = append(templates, open+a+" "+b+" "+d+cl)
+					}
+				}
+			}
+		}
+	}
+	for _, tm := range templates {
+		if !strings.Contains(tm, "{}") {
+			continue
+		}
+		w := "E|" + tm
+		if !(only == "" && c.Mine() || only == w) {
+			continue
+		}
+		c.Begin(w)
+		want := tm
+		for k, v := range subst {
+			want = strings.ReplaceAll(want, k, v)
+		}
+		want = strings.Join(strings.Fields(want), " ")
+		want = strings.ReplaceAll(strings.ReplaceAll(want, "( ", "("), " )", ")")
+		want = strings.ReplaceAll(strings.ReplaceAll(want, "[ ", "["), " ]", "]")
+		res := runTracedText(c15prelude(), "^"+tm, `(def gv 0)`)
+		got := res.r.Short()
+		viol := func(clause, detail string) { c.Violation(clause, "C15/empty-hash-"+clause, w, detail) }
+		if res.r.Panic != "" {
+			viol("panic", res.r.Panic)
+		} else if got != want {
+			viol("template", fmt.Sprintf("^%s evaluates to %s, exact substitution gives %s", tm, res.r, want))
+		}
+		if d := res.tr.Env.VerifDepths(); res.r.OK() && !atRest(d) {
+			viol("not-at-rest", fmt.Sprintf("after ^%s: %s", tm, depthsStr(d)))
+		}
+		// the next template on the same interpreter is unaffected
+		if nx := res.tr.Run("^(p ~x q)"); nx.Short() != "(p 5 q)" {
+			viol("next-template", fmt.Sprintf("after ^%s, ^(p ~x q) evaluates to %s", tm, nx))
+		}
+		// and as a macro body
+		if mr := res.tr.Run("(defmac dh15 [nm] ^(def ~nm (quote " + tm + "))) (dh15 reg15) reg15"); mr.Short() != want {
+			viol("macro", fmt.Sprintf("(defmac dh15 [nm] ^(def ~nm (quote %s))) (dh15 reg15) reg15 gives %s, expected %s", tm, mr, want))
+		}
+		res.tr.Env.Close()
+		c.Outcome("E|" + tm + "|" + got)
+	}
+}
+
 func init() {
 	engine.Register(&engine.Check{
 		ID:    "C15",
 		Level: "exploration",
 		Rule: "templates: every list/array of width 1..2 over a pool of 22 leaves (literals, ~x for 6 bindings, ~@xs for 4 lists incl. empty and nested, ~(compound), ~@(compound), traced unquotes) and width-1..2 nested containers; width 3 over the leaves; " +
-			"each in explicit form and with the reader sugar ^ ~ ~@; value compared with exact substitution (R4 inside the reference evaluator). Macros: 18 macros (three of them expanding to break / continue / a tail self-call, three to a parenthesised assignment / a bare symbol; forms R1 does not model are judged macro call vs hand expansion on the implementation) x all argument tuples over 6 forms x 10 call sites (top level, function, defn, loop, let, argument, cond, let inside a loop, newScope inside a loop inside a function, let+newScope inside a defn) x {direct, inside another macro's expansion}: " +
+			"each in explicit form and with the reader sugar ^ ~ ~@; value compared with exact substitution (R4 inside the reference evaluator); the empty hash literal {} at every position of templates of width 1..3, also as a macro body. Macros: 18 macros (three of them expanding to break / continue / a tail self-call, three to a parenthesised assignment / a bare symbol; forms R1 does not model are judged macro call vs hand expansion on the implementation) x all argument tuples over 6 forms x 10 call sites (top level, function, defn, loop, let, argument, cond, let inside a loop, newScope inside a loop inside a function, let+newScope inside a defn) x {direct, inside another macro's expansion}: " +
 			"value/effects equal those of the hand-written expansion, stacks at rest; macexpand leaves depths and globals of the caller unchanged and prints the exact substitution",
 		Assumptions: []string{"splicing a non-list and nested syntax-quotes are outside the modelled fragment (skipped)"},
 		Run: func(c *engine.Ctx) {
@@ -372,6 +435,7 @@ func init() {
 			} else {
 				c15containers(pool2, w2, func(t *T) bool { return run(t, "nested") })
 			}
+			c15emptyHash(c, "")
 			// macros
 			argf := c15argForms()
 			for _, m := range c15macros {
@@ -421,6 +485,13 @@ func init() {
 			}
 		},
 		Replay: func(c *engine.Ctx, w string) {
+			if strings.HasPrefix(w, "E|") {
+				c15emptyHash(c, w)
+				for i := range c.Viol {
+					c.Viol[i].Key = "*"
+				}
+				return
+			}
 			pick := func(mi int, ais string) (c15macro, []*T) {
 				var args []*T
 				for _, f := range strings.Split(ais, ",") {
